@@ -549,6 +549,14 @@ def _run(pid, P, tier, seed, scratch, t0):
         else:
             violations.append(f)
 
+    selftest = None
+    if tier == 'thorough' and not os.environ.get('VERIF_NO_SELFTEST') and not violations:
+        selftest = self_test(pid, scratch)
+        for s in selftest:
+            if not s['ok']:
+                inconclusive.append(dict(message='SELF-TEST failed: %s expected %s, got %s — the check is broken, its verdict is not to be believed'
+                                         % (s['case'], s['expect'], s['outcome']), rendered='', cfg='selftest'))
+
     for k, f in known_hits:
         print('KNOWN-FINDING: property=%s %s [obligation %s]' % (pid, k.get('what', ''), f['id']))
     out_lines = []
@@ -619,6 +627,7 @@ def _run(pid, P, tier, seed, scratch, t0):
             functions_verified_for_safety=verified_fns if pid in SAFETY_PROPS else None,
             external_body_assumed=ext_body,
             assumption_scan=scan['items'],
+            self_test=selftest,
             vacuity=dict(probes=len(probes), failed_as_required=len(probes) - len(vacuous), rule='assert(false) inserted at the start of every function under contract must be refuted'),
             normalisations=meta['notes']['normalisations'],
             backends=dict(verus=summary, kani=(kani['summary'] if kani else None)),
@@ -644,6 +653,41 @@ def _run(pid, P, tier, seed, scratch, t0):
     print('OK property=%s obligations=%d discharged=%d known_findings=%d wall=%.1fs' %
           (pid, n_obl - known_obl, len(discharged_list), known_obl, wall))
     return 0
+
+
+def self_test(pid, scratch):
+    """thorough tier: the check must still catch the seeded changes recorded as caught for this property, and must not
+    raise an alarm on the behaviour-preserving refactorings — each applied to a scratch copy of the working tree"""
+    results = []
+    cases = []
+    for d in sorted(glob.glob(os.path.join(HERE, 'seeded', '*'))):
+        try:
+            meta = json.load(open(os.path.join(d, 'meta.json')))
+        except Exception:
+            continue
+        if meta.get('property') == pid and meta.get('outcome') == 'VIOLATION':
+            cases.append((os.path.basename(d), os.path.join(d, 'patch.diff'), 'violation'))
+    for p in sorted(glob.glob(os.path.join(HERE, 'harmless', 'h*.diff'))):
+        cases.append((os.path.basename(p), p, 'no-alarm'))
+    for name, patch, expect in cases:
+        work = os.path.join(scratch, 'selftest_' + re.sub(r'\W', '_', name))
+        os.makedirs(work)
+        shutil.copytree(os.path.join(REPO, 'src'), os.path.join(work, 'src'))
+        for f in ('Cargo.toml', 'Cargo.lock'):
+            shutil.copy(os.path.join(REPO, f), os.path.join(work, f))
+        a = sh(['git', 'apply', '--unsafe-paths', '--directory=' + work, patch], cwd='/')
+        if a.returncode != 0:
+            a = sh(['patch', '-p1', '-s', '-i', patch], cwd=work)
+        if a.returncode != 0:
+            results.append(dict(case=name, expect=expect, outcome='patch does not apply (skipped)', ok=True))
+            continue
+        r = sh([os.path.join(HERE, 'check'), pid, '--tier', 'quick'], cwd=HERE,
+               env=dict(os.environ, VERIF_REPO=work, VERIF_EVIDENCE_DIR=os.path.join(scratch, 'selftest_evidence'),
+                        VERIF_NO_SELFTEST='1', VERIF_TIER='quick'))
+        ok = (r.returncode == 1) if expect == 'violation' else (r.returncode != 1)
+        results.append(dict(case=name, expect=expect, outcome='exit %d' % r.returncode, ok=ok))
+        shutil.rmtree(work, ignore_errors=True)
+    return results
 
 
 def do_replay(pid, path):
